@@ -249,3 +249,10 @@ func init() {
 	prop("C19", "C19-R4")
 	prop("C12", "C19-R4") // no call blocks for ever
 }
+
+func init() {
+	prop("C13", "C13-R9")
+	prop("C13", "C13-R10")
+	prop("C09", "C09-R5")
+	prop("C01", "C09-R5") // a checkpoint that skips a dirty page
+}
